@@ -300,6 +300,10 @@ class Ctx:
         self.failures.append(dict(signature=signature, what=what, kind=kind, payload=payload))
         # a broken tree can fail on thousands of cases: the verdict is settled long before, stop exploring
         unknown = [f for f in self.failures if f['signature'] not in self.known]
+        if self.broken:
+            # the tie is broken: differences from the MODEL are expected in bulk and are not failing inputs (see finish);
+            # the search goes on until failing inputs of the PROPERTY are found
+            unknown = [f for f in unknown if f['kind'] != 'correspondence']
         if len(unknown) >= 400 or len({f['signature'] for f in unknown}) >= 40:
             raise EnoughFailures()
 
